@@ -3,6 +3,8 @@
 set -e
 cd "$(dirname "$(readlink -f "$0")")/../.."
 go build -o .work/bin/instr ./tools/instr
-.work/bin/instr -out .work/c19 -yield quadtree -globals quadtree 2>.work/c19.instr.log || { cat .work/c19.instr.log; exit 1; }
-go build -tags verif -overlay .work/c19/overlay.json -o "$1" ./checks/c19
-CGO_ENABLED=1 go build -race -o "$1-race" ./checks/c19/racepass
+W=.work/c19${VERIF_TAG:-}
+R=${VERIF_REPO:-/repo}
+.work/bin/instr -repo "$R" -out $W -yield quadtree -globals quadtree 2>$W.instr.log || { cat $W.instr.log; exit 1; }
+go build ${VERIF_MODFLAG:-} -tags verif -overlay $W/overlay.json -o "$1" ./checks/c19
+CGO_ENABLED=1 go build ${VERIF_MODFLAG:-} -race -o "$1-race" ./checks/c19/racepass
